@@ -97,6 +97,22 @@ def mutants(data, rng, n, others=()):
                 add(data[:i] + b'\\u00' + b'%02x' % data[i] + data[i + 1:])
             add(data[:i] + b'\\u00fc' + data[i:])
             add(data[:i] + b'\\u20ac\\ud83d\\ude00' + data[i:])
+        # JSON values: another top-level type that still mentions the member names (a reader that indexes the decoded value)
+        if data[:1] == b'{':
+            import re as _re2
+            keys = _re2.findall(rb'"([A-Za-z_][A-Za-z0-9_-]*)"\s*:', data)[:4]
+            for k in keys:
+                add(b'["' + k + b'"]')
+                add(b'"' + k + b'"')
+            add(b'[' + data + b']')
+            add(b'null')
+            add(b'17')
+        # quoted strings: a backslash and an escaped quote inside (quoted-pair)
+        q = data.find(b'"')
+        if q >= 0 and data.find(b'"', q + 1) > q + 1:
+            add(data[:q + 2] + b'\\' + data[q + 2:])
+            add(data[:q + 2] + b'\\"' + data[q + 2:])
+            add(data[:q + 2] + b'\\\\' + data[q + 2:])
         # keys of key:value / key=value tokens exchanged (an IPv4 network under ip6:, a number where a name is expected)
         import re as _re
         toks = _re.findall(rb'[^ ;,]+', data)
